@@ -13,6 +13,61 @@ Supported C++ subset (everything else is a hard error, never silently skipped):
   expressions: + - * / unary -, parentheses, identifiers, integer and simple floating literals,
                S(x)/Scalar(x) casts of literals and of `eps2`, calls sin cos tan sqrt atan2,
                the member/index forms listed in each function's substitution table.
+
+WHOLE IMPLEMENTATION FUNCTIONS (tools/gen_impl.py + gen_impl_parse.py, run from main() below)
+---------------------------------------------------------------------------------------------
+Every static function of the Impl classes of detail/so2.hpp, c1.hpp, tn.hpp, se2.hpp, so3.hpp, se3.hpp is
+transliterated statement by statement into `SmoothModel/Gen/ImplSrc.lean` (namespaces ImplSrc.SO2 …,
+over `[Scalar α]`; TnImpl<N> for a symbolic dimension n), and SmoothProps/SrcTieImpl{,C01..C05}.lean prove
+`ImplSrc.G.f = G.f` for the hand-written model (78 theorems: `rfl`, or entry by entry `fin_cases`+`rfl`
+after unfolding memoM/memoV and rewriting callees by their own ties; α abstract, so no arithmetic law is
+used and the expression trees, including operation order, coincide).
+  TRANSLATED (69): SO2 C1: setIdentity matrix composition inverse log exp hat vee;  Tn: the same + ad;
+    SE2: setIdentity matrix composition inverse log Ad exp hat vee ad dr_exp dr_expinv d2r_exp d2r_expinv;
+    SO3: calc_S1 calc_S2 calc_S1inv setIdentity matrix composition inverse log Ad exp hat vee ad dr_exp
+         dr_expinv d2r_exp d2r_expinv;
+    SE3: setIdentity matrix composition inverse log Ad exp hat vee ad calculate_q dr_exp dr_expinv.
+  NOT TRANSLATED (table EXCLUDED of gen_impl.py, repeated in the header of the generated file and as
+    `ImplSrc.notTranslated`): setRandom of every class (Eigen's RNG); SE3 calculate_Q_dQ (its 3x18 table
+    is tied by gen_dq.py), SE3 d2r_exp / d2r_expinv (use calculate_Q_dQ and d_matrix_product).
+    The list of translated functions is itself tied (`SrcTieImpl.manifest_eq`): a function added to or
+    removed from a class breaks it.
+  C++ SUBSET: declarations `[const] T x [= e]`, `T x{{..},{..}}`, `Eigen::Map<const Quaternion> q(v.data())`,
+    `const auto [a, b] = <lambda>()`, local `using X = T;`; assignments `=  +=  -=  *=` (with .noalias()) to
+    whole objects, coefficients `x(i) x(i,j) x[i]`, blocks `.head<k>() .tail<k>() .segment<k>(o)
+    .topLeftCorner<r,c>() (all four corners) .block<r,c>(i,j) .middleCols<k>(j) .col(j)`; comma initialiser;
+    `.setZero() .setIdentity()`; calls of other Impl functions (one output parameter) and of value-returning
+    ones; `if (a < b) { x op= …; }`; `for (auto i = 0u; i < N; ++i)` (unrolled); immediately invoked
+    lambdas `[&]() -> Scalar | std::array<Scalar,k> { const Scalar…; if/else; return …; }()`; `return e;`.
+    Expressions: + - * / unary -, coefficient access `.x() .y() .z() .w()`, `.squaredNorm() .dot() .row(i).transpose()
+    .transpose()`, `::Identity() ::Zero()`, quaternion `* .inverse() .conjugate() .toRotationMatrix() .coeffs()`.
+    HARD ERRORS (never skipped): any other statement, member function, operator or type; integer division
+    of literals; a bare floating literal in arithmetic (C++ would compute in double); reading an entry of a
+    declared-but-unassigned object, or leaving an entry of an output unassigned (definite-assignment
+    analysis on static indices); first assignment inside a conditional; assignment to a const / input;
+    overloaded or recursive functions; a class member that is not a constant, a using or a static function.
+  TRUSTED TABLES (the meaning given to Eigen 3.4 constructs; SmoothModel/EigenSem.lean documents the Eigen
+    source lines, Lin.lean has the dense helpers):
+      A+B A-B -A s*A A*s A/s   -> madd msub mneg msmul msmulR mdivs (vadd vsub vneg vsmul vsmulR vdivs)
+      A*B, A*v                 -> mmul, mulVec: Σ_l A(i,l)·B(l,j) summed left to right from 0 (Lin.vsum);
+                                  `s*A*B` is `(s*A)*B` as C++ parses it and as Eigen evaluates it
+                                  (entries of A scaled first) — NOT s*(A*B)
+      v.squaredNorm() v.dot(w) -> sqNorm, dot (same summation order)
+      x *= s ; B *= M          -> entries x(i)*s (vscaleR mscaleR) ; B = B*M (mmul)
+      Identity() Zero() setIdentity() setZero() -> ident mzero vzero
+      x << e0, e1, …  and  T x{{…},{…}}   -> row-major fill: mk1..mk4 mat2 mat3 vecLit matLit
+      block reads / writes     -> head tail segment blockM blockCol rowT / setSegment setBlock setBlockCol
+                                  setCoeffV setCoeffM (index arithmetic only)
+      q.toRotationMatrix()  q1*q2  q.inverse()  q.conjugate()  -> quatToRot quatMul quatInverse quatConj
+                                  (Quaternion.h 592–624, 487–498 generic quat_product, 720–731, 735–741;
+                                  coefficient order x y z w)
+      sin cos tan sqrt atan2 exp log -> Scalar.*;  detail::cos_2 … cos_6 -> CoefSrc.Trig_* (generated above)
+      Scalar(k) Scalar(-k) Scalar(0.5) Scalar(1. / 6) Scalar(eps2); int literal meeting a Scalar -> nat k;
+      whole initialiser entries `0.` `0.5` `-0.5` -> nat 0, nat 1 / nat 2, -(nat 1 / nat 2)
+    What the tables do NOT claim: Eigen's summation order inside a product/reduction of inner size 3
+    depends on the scalar type and instruction set (packet path left-to-right, scalar path x0+(x1+x2)) and
+    Eigen has SIMD quaternion products; these rounding-level differences are the business of the execution
+    tie T1 (ulp comparison), not of this syntactic tie.
 """
 import os, re, sys
 sys.path.insert(0, os.path.dirname(os.path.abspath(__file__)))
@@ -317,7 +372,7 @@ def specs(repo):
 
 
 def main():
-    repo = sys.argv[1] if len(sys.argv) > 1 else '/repo'
+    repo = sys.argv[1] if len(sys.argv) > 1 else os.environ.get('VERIF_REPO', '/repo')
     outp = sys.argv[2] if len(sys.argv) > 2 else os.path.join(os.path.dirname(os.path.abspath(__file__)), '..', 'lean', 'SmoothModel', 'Gen', 'CoefSrc.lean')
     L = ["/- GENERATED by tools/gen_src.py from include/smooth/detail/{trig,so3,se2,se3}.hpp.",
          "   Do not edit: regenerated from the repository on every check run. -/",
